@@ -647,6 +647,8 @@ class Interp(object):
             raise Unsupported('recursion too deep')
         try:
             sc = {'__rel__': f.rel}
+            if getattr(f, 'closure', None) is not None:
+                sc['__parent__'] = f.closure
             params = [a.arg for a in fn.args.args]
             vals = list(args)
             if f.self_obj is not None:
@@ -759,6 +761,7 @@ class Interp(object):
             self.block(s.finalbody, env)
         elif isinstance(s, ast.FunctionDef):
             env[s.name] = FuncRef(env['__rel__'], s)
+            env[s.name].closure = env                      # free variables resolve in the defining scope
         elif isinstance(s, ast.Delete):
             pass
         elif isinstance(s, ast.While):
